@@ -49,6 +49,45 @@ def _is_client_fault(e):
                                                                       e.faultcode.startswith('Client.'))
 
 
+def _native_kind_ok(tname, v):
+    """v (a real or a symbolic value) is None or of the native type of the model named tname."""
+    import datetime as _dt
+    import decimal as _dec
+    import uuid as _uuid
+    from pyvc import timemodel as tm
+    from pyvc.sym import SInt, SBool, SReal, SStr, SBytes
+    if v is None:
+        return True
+    from pyvc.sym import SOpaque
+    if isinstance(v, SOpaque):
+        native = {'Integer': int, 'Decimal': _dec.Decimal, 'Double': float, 'Boolean': bool, 'Unicode': str, 'AnyUri': str,
+                  'Date': _dt.date, 'DateTime': _dt.datetime, 'Time': _dt.time, 'Duration': _dt.timedelta, 'Uuid': _uuid.UUID}
+        for k, t in native.items():
+            if tname.startswith(k) and (k != 'Date' or not tname.startswith('DateTime')) and (k != 'Integer' or True):
+                return v.pytype is t
+        return False
+    base = tname.split('_')[0]
+    table = {
+        'Integer': lambda: (isinstance(v, int) and not isinstance(v, bool)) or (isinstance(v, SInt) and not isinstance(v, SBool)),
+        'Decimal': lambda: isinstance(v, (_dec.Decimal, SReal)),
+        'Double': lambda: isinstance(v, (float, SReal)) or (isinstance(v, int) and not isinstance(v, bool)),
+        'Boolean': lambda: isinstance(v, (bool, SBool)),
+        'Unicode': lambda: isinstance(v, (str, FmtStr)) or (isinstance(v, SStr) and not isinstance(v, SBytes)),
+        'AnyUri': lambda: isinstance(v, (str, FmtStr)) or (isinstance(v, SStr) and not isinstance(v, SBytes)),
+        'Date': lambda: (isinstance(v, _dt.date) and not isinstance(v, _dt.datetime)) or type(v) is tm.SymDate,
+        'DateTime': lambda: isinstance(v, (_dt.datetime, tm.SymDateTime)),
+        'Time': lambda: isinstance(v, (_dt.time, tm.SymTime)),
+        'Duration': lambda: isinstance(v, (_dt.timedelta, tm.SymTimedelta)),
+        'Uuid': lambda: isinstance(v, _uuid.UUID),
+        'ByteArray': lambda: isinstance(v, (bytes, SBytes)) or (isinstance(v, (list, tuple)) and all(
+            isinstance(x, (bytes, SBytes, memoryview)) for x in v)),
+    }
+    for k, f in table.items():
+        if base.startswith(k) and (k != 'Date' or not base.startswith('DateTime')):
+            return f()
+    return True
+
+
 def _mk_leaf_arbitrary(pname, P, tname):
     @obligation('C10.leaf.%s.%s.arbitrary_text' % (pname, tname),
                 targets=['spyne.protocol._inbase:InProtocolBase.from_unicode'],
@@ -63,6 +102,8 @@ def _mk_leaf_arbitrary(pname, P, tname):
             extern.install_may_raise(c)
         out = c.run(prot.from_unicode, T, s)
         c.check('returns_or_client_fault', out.returned or _is_client_fault(out.exc), detail=repr(out))
+        if out.returned:
+            c.check('result_has_the_native_type', _native_kind_ok(tname, out.value), detail=(tname, type(out.value).__name__))
     return ob
 
 
